@@ -526,6 +526,14 @@ func inputDerived(v ssa.Value, depth int, seen map[ssa.Value]bool) bool {
 		if b, ok := x.Call.Value.(*ssa.Builtin); ok && b.Name() == "append" {
 			return inputDerived(x.Call.Args[0], depth+1, seen)
 		}
+		// net.IP.To16 / To4 / Mask-less views return (a re-slice of) the receiver's own backing array for addresses
+		// that already have the requested length
+		switch calleeName(&x.Call) {
+		case "(net.IP).To16", "(net.IP).To4":
+			if len(x.Call.Args) > 0 {
+				return inputDerived(x.Call.Args[0], depth+1, seen)
+			}
+		}
 		// nil-safe protobuf getters and other accessor methods hand out the receiver's own storage
 		if rv := recvOf(&x.Call); rv != nil && strings.HasPrefix(calleeShort(&x.Call), "Get") {
 			switch x.Type().Underlying().(type) {
